@@ -43,4 +43,5 @@ Definition run_cfg (t0 t1 : forest) (c : cfg11) : sx :=
 
 Definition run11 (c : case11) : sx :=
   let '(t0, t1, cfgs) := c in
-  L [ L (map (run_cfg t0 t1) cfgs); L (map sx_in t0); L (map sx_in t1); sx_bool (dom_b t0 t1) ].
+  L [ L (map (run_cfg t0 t1) cfgs); L (map sx_in t0); L (map sx_in t1);
+      sx_bool (dom_b t0 t1); sx_bool (no_raise_b t0 t1) ].
